@@ -71,6 +71,7 @@ def run(res, tier):
     res.rule("WR-4", "raw-slice vmp kernels taking limb_offset: the zero fill starts one stride after the last written limb")
     res.rule("ROW-1", "row accessors X.at(row, ..) / X.at_mut(row, ..) in a row loop: the loop bound stays within X.dnum() under the comparisons that dominate the access")
     res.rule("ACC-1", "a big accumulator whose limb count is clamped by an object's limb count is normalised only into that object")
+    res.rule("RAD-4", "the two arms of a radix-equality decision fill every common object from the same columns of the operands that exist before the decision")
     res.rule("UNIT-1", "comparisons, min and max between limb counts, key row counts and bit precisions (limbs = rows * dsize, bits = limbs * base2k) relate quantities of the same unit")
     res.rule("RAD-1", "a cross-radix conversion skipped / taken on a radix comparison is guarded by the comparison of exactly its input and output radices")
     res.rule("RAD-2", "no call of an operation asserting equal radices of two arguments sits on a branch whose guards imply that they differ (cswap / cmux cross-radix branches)")
@@ -101,4 +102,6 @@ def run(res, tier):
         res.floor("UNIT-1", "comparisons / min / max between quantities of known units", nu, 9)
         na = acc1(p, res, ("poulpy_core", "poulpy_bin_fhe", "poulpy_ckks"))
         res.floor("ACC-1", "(scratch big accumulator, normalisation destination) pairs", na, 8)
+        nr4 = rad.rad4(p, res, ("poulpy_core::external_product", "poulpy_core::conversion", "poulpy_bin_fhe::bdd_arithmetic"))
+        res.floor("RAD-4", "objects filled in both arms of a radix decision", nr4, 1)
         res.fn_count += n + nc
